@@ -143,4 +143,6 @@ var uncertainErrList = []error{
 	tikverr.ErrBodyMissing,
 	tikverr.ErrTiKVServerTimeout,
 	tikverr.ErrUnknown,
+	// the answer of the commit request was lost: the batch may or may not have been applied
+	tikverr.ErrResultUndetermined,
 }
